@@ -63,6 +63,29 @@ def zoned_sets():
     return out
 
 
+def subsecond_sets():
+    """stamps read with -i '%FT%T.%N': ordering and equality down to the nanosecond (lines within one second must still be told apart)"""
+    out = []
+    base = datetime.datetime(2012, 3, 4, 10, 0, 0)
+
+    def key(d):
+        return (d[0], d[1])
+    for n1, n2, n3 in ((500000000, 1, 999999999), (1, 0, 500000001), (999999999, 500000000, 2)):
+        v1, v2, v3 = (base, n1), (base + datetime.timedelta(seconds=1), n2), (base, n3)
+        zs = ZSet([(">%s.%09d" % (v1[0].strftime("%Y-%m-%dT%H:%M:%S"), v1[1]), lambda d, v=v1: key(d) > v),
+                   ("<=%s.%09d" % (v2[0].strftime("%Y-%m-%dT%H:%M:%S"), v2[1]), lambda d, v=v2: key(d) <= v),
+                   ("!=%s.%09d" % (v3[0].strftime("%Y-%m-%dT%H:%M:%S"), v3[1]), lambda d, v=v3: key(d) != v)])
+        zs.args = ["-i", "%FT%T.%N"]
+        stamps = []
+        for sec in (-1, 0, 1, 2):
+            for ns in sorted({0, 1, 2, 499999999, 500000000, 500000001, 999999999, n1, n2, n3}):
+                stamps.append((base + datetime.timedelta(seconds=sec), ns))
+        zs.lines = [("id%02d %s.%09d tail" % (i, t.strftime("%Y-%m-%dT%H:%M:%S"), ns), (t, ns)) for i, (t, ns) in enumerate(stamps)]
+        zs.lines.insert(5, ("no stamp here", None))
+        out.append(zs)
+    return out
+
+
 def lines_for(aset):
     """dates realising as many valuations of the atom set as exist, plus lines without a date"""
     want = {}
@@ -150,21 +173,25 @@ def main(tier):
                 break
             zs = zsets[ti % len(zsets)]
             jobs.append((t, zs, show(t, [a for a, _ in zs], ti % 2 == 0), ti % 5 == 0))
+        ssets = subsecond_sets()
+        for ti, t in enumerate(trees[: 120 if quick else 3000]):
+            ss = ssets[ti % len(ssets)]
+            jobs.append((t, ss, show(t, [a for a, _ in ss], ti % 2 == 1), ti % 4 == 0))
         lines_cache = {id(a): lines_for(a) for a in ATOMSETS}
-        for zs in zsets:
+        for zs in zsets + ssets:
             lines_cache[id(zs)] = zs.lines
 
         def one(job):
             t, aset, expr, inv = job
             ls = lines_cache[id(aset)]
-            zargs = ["-z", aset.zone] if getattr(aset, "zone", None) else []
+            zargs = ["-z", aset.zone] if getattr(aset, "zone", None) else list(getattr(aset, "args", []))
             p = core.run([dgrep] + zargs + (["-v"] if inv else []) + [expr], inp="".join(x + "\n" for x, _ in ls), timeout=20, env=bs.env)
             return job, p.returncode, p.stdout.split("\n")[:-1] if p.stdout else [], p.stderr[-400:]
         execs = []
         with ThreadPoolExecutor(max_workers=core.NCPU) as ex:
             for (t, aset, expr, inv), rc, out, err in ex.map(one, jobs):
                 ls = lines_cache[id(aset)]
-                e = [{"e": "Reset", "cmd": "dgrep %s%s'%s'" % ("-z %s " % aset.zone if getattr(aset, "zone", None) else "", "-v " if inv else "", expr), "tree": t, "inv": inv}]
+                e = [{"e": "Reset", "cmd": "dgrep %s%s'%s'" % ("-z %s " % aset.zone if getattr(aset, "zone", None) else " ".join(getattr(aset, "args", [])) + " " if getattr(aset, "args", None) else "", "-v " if inv else "", expr), "tree": t, "inv": inv}]
                 pos = 0
                 inorder = True
                 used = 0
